@@ -9,6 +9,7 @@ import (
 
 	"codeberg.org/TauCeti/mangle-go/analysis"
 	"codeberg.org/TauCeti/mangle-go/ast"
+	"codeberg.org/TauCeti/mangle-go/engine"
 	"codeberg.org/TauCeti/mangle-go/factstore"
 	"codeberg.org/TauCeti/mangle-go/parse"
 	"codeberg.org/TauCeti/mangle-go/zzsim/simrt"
@@ -397,4 +398,8 @@ func shuffleInts(r *simrt.Run, n int, label string) []int {
 		idx[i], idx[j] = idx[j], idx[i]
 	}
 	return idx
+}
+
+func evalProgramPlain(pi *analysis.ProgramInfo, store factstore.FactStore, opts ...engine.EvalOption) error {
+	return engine.EvalProgram(pi, store, opts...)
 }
